@@ -126,6 +126,20 @@ def source_override(units, srcdir):
 
 
 ALL_UNITS_MIN = 20
+# names of all functions defined on the tree the rules were written against (bin/mkvocab); see tools/llvm2facts.cc --known
+VOCAB = os.path.join(os.path.dirname(os.path.dirname(os.path.abspath(__file__))), "vocab", "functions.txt")
+
+
+SIGS = os.path.join(os.path.dirname(VOCAB), "signatures.tsv")
+
+
+def known_function(name):
+    global _KNOWN
+    try:
+        return name in _KNOWN
+    except NameError:
+        _KNOWN = set(open(VOCAB).read().split()) if os.path.exists(VOCAB) else set()
+        return name in _KNOWN
 
 
 def _compile_unit(name, src, flags, cwd, mode):
@@ -140,7 +154,14 @@ def _compile_unit(name, src, flags, cwd, mode):
     r = subprocess.run(cmd, capture_output=True, text=True, cwd=cwd if os.path.isdir(cwd) else None)
     if r.returncode != 0:
         raise AnalysisBroken("clang-14 failed on %s: %s" % (src, r.stderr[-3000:]))
-    r = subprocess.run([LLVM2FACTS, bc, js, "--inline=" + mode], capture_output=True, text=True)
+    args = [LLVM2FACTS, bc, js, "--inline=" + mode, "--unit=" + name]
+    if os.path.exists(VOCAB):
+        args.append("--known=" + VOCAB)
+        if os.path.exists(SIGS):
+            args.append("--sigs=" + SIGS)
+    if os.environ.get("VERIF_DUMP_SIGS"):
+        args.append("--dump-sigs=" + js + ".sigs")
+    r = subprocess.run(args, capture_output=True, text=True)
     if r.returncode != 0:
         raise AnalysisBroken("llvm2facts failed on %s: %s" % (src, r.stderr[-3000:]))
     os.unlink(bc)
